@@ -12,6 +12,8 @@ import GoBk.Proofs.KeyLemmas
   (`enc : E.Point → Nat × Nat`, `0 ↦ (0,0)`), for EVERY scalar byte string.  The refinement of the
   real Jacobian / field / NAF / byte-table code of /repo/bec/btcec.go and field.go to this model is
   the subject of other modules (Gen/Field, Gen/CurveIR, Proofs/*) and is NOT claimed here.
+  (The executable `Curve.scalarMult/scalarBaseMult` take a Jacobian ladder `GoBk.Fast`; its equality
+  with the reference `Spec.smul` is `GoBk.Proofs.CurveDef`, the only way these proofs look at them.)
 
   Property theorems only; proofs use `GoBk.Proofs.{CurveSpec,GroupOrder,KeyLemmas}`.
 -/
@@ -19,11 +21,12 @@ namespace GoBk.Props.C01
 open GoBk Bytes Spec GoBk.Proofs GoBk.Proofs.KeyBytes
 
 /-- `Add` returns the affine coordinates of the group sum ((0,0) for the point at infinity). -/
-theorem add_exact (Q R : E.Point) : Curve.add (enc Q) (enc R) = enc (Q + R) := padd_enc Q R
+theorem add_exact (Q R : E.Point) : Curve.add (enc Q) (enc R) = enc (Q + R) := by
+  rw [Curve.add_def]; exact padd_enc Q R
 
 /-- `Double` returns the affine coordinates of `2•Q`. -/
 theorem double_exact (Q : E.Point) : Curve.double (enc Q) = enc (2 • Q) := by
-  rw [two_nsmul]; exact pdouble_enc Q
+  rw [two_nsmul, Curve.double_def]; exact pdouble_enc Q
 
 /-- `ScalarMult(Q, k)` is `beNat k • Q` for EVERY byte string `k`
 (empty, zero, ≥ N, longer than 32 bytes, leading zeros). -/
@@ -68,11 +71,13 @@ theorem scalarMult_leading_zeros (Q : E.Point) (n : Nat) (k : Bytes) :
 /-- `IsOnCurve(x, y)` is true exactly when `y² ≡ x³ + 7 (mod P)`
 (stated for all naturals; the property restricts to `[0,P)` where the model is tied to the code). -/
 theorem isOnCurve_iff (x y : Nat) :
-    Curve.isOnCurve (x, y) = true ↔ y ^ 2 ≡ x ^ 3 + 7 [MOD P] := onCurve_iff x y
+    Curve.isOnCurve (x, y) = true ↔ y ^ 2 ≡ x ^ 3 + 7 [MOD P] := by
+  rw [Curve.isOnCurve_def]; exact onCurve_iff x y
 
 /-- on reduced coordinates, `IsOnCurve` holds exactly for the affine points of `E` -/
 theorem isOnCurve_iff_enc (x y : Nat) (hx : x < P) (hy : y < P) :
     Curve.isOnCurve (x, y) = true ↔ ∃ Q : E.Point, Q ≠ 0 ∧ enc Q = (x, y) := by
+  rw [Curve.isOnCurve_def]
   constructor
   · intro h
     obtain ⟨Q, hQ⟩ := (valid_iff (x, y)).1 (valid_of_onCurve hx hy h)
@@ -98,7 +103,8 @@ theorem valid_coords_lt {a : Pt} (h : valid a = true) : a.1 < P ∧ a.2 < P := v
 /-! ### the same statements on `Pt` (no Mathlib types in the statement) -/
 
 theorem add_valid {a b : Pt} (ha : valid a = true) (hb : valid b = true) :
-    Curve.add a b = padd a b ∧ valid (Curve.add a b) = true := ⟨rfl, valid_padd ha hb⟩
+    Curve.add a b = padd a b ∧ valid (Curve.add a b) = true := by
+  rw [Curve.add_def]; exact ⟨rfl, valid_padd ha hb⟩
 
 theorem scalarMult_pt (k : Bytes) {a : Pt} (ha : valid a = true) :
     Curve.scalarMult a k = smul (beNat k) a ∧ valid (Curve.scalarMult a k) = true := by
